@@ -56,7 +56,16 @@ func cmdGenesis(args []string) {
 			continue
 		}
 		var chosen []int
-		if *every > 0 {
+		// a script may name the boundaries it wants exported ({"k": "End", "export": true}): always taken
+		var named []int
+		for _, e := range ends {
+			if s.Acts[e].Has("export") {
+				named = append(named, e)
+			}
+		}
+		if len(named) > 0 {
+			chosen = named
+		} else if *every > 0 {
 			for j := 0; j < len(ends); j += *every {
 				chosen = append(chosen, ends[j])
 			}
